@@ -217,3 +217,170 @@ STEP = [
     steph("step_twin_must_fail", "vacuity twin (must FAIL)", expect_fail=True),
 ]
 PROPS["STEP"] = dict(level="other", explanation="LR step harnesses (development only)", harnesses=STEP)
+
+
+F_META = ["rustemo-compiler/src/grammar/builder.rs: GrammarBuilder::extract_productions_and_symbols (block `// Inherit meta-data from Rule.` .. nopse mapping, sliced verbatim)"]
+
+
+def metah(name, what, **kw):
+    return h("e2", "metainherit::proofs::" + name, what, "all presence/value combinations of priority (<=1000), left, right, nops, nopse, kind, one user key at rule and production level; unwind 10",
+             F_META, timeout=900, mem_gb=8, cost=1, extra=NOMEM, **kw)
+
+
+PROPS["C09"] = dict(
+    level="other",
+    explanation=(
+        "Bounded model checking (Kani/CBMC) of the real rule->production meta-data inheritance and field-mapping block of "
+        "GrammarBuilder::extract_productions_and_symbols, sliced byte-for-byte from /repo on every run: for every presence and "
+        "value of priority, left, right, nops, nopse, kind and a user key at rule level and at production level, every "
+        "production field equals the production-level datum if the production gives that datum itself, else the rule-level "
+        "datum, else the default (priority 10, no associativity, false)."
+    ),
+    residual="text->AST front end, EMPTY removal, inline-string resolution, desugaring of ? * + [sep] and index allocation (String-keyed maps and format!-built names; the language-level effect of desugaring is covered for the corpus grammar g7_sugar under C01)",
+    assumptions=[
+        "stand-in: BTreeMap<String, ConstVal> -> 7-slot map keyed by the same literals ('priority','left','right','nops','nopse','kind', any other = user key)",
+        "at most one of left/right per meta block (writing both in one block has no documented meaning)",
+    ],
+    harnesses=[
+        metah("inherit_all", "all fields, production vs rule level"),
+        metah("inherit_assoc_cross", "a production giving left (right) under a rule giving right (left) keeps its own associativity"),
+        metah("inherit_twin_must_fail", "vacuity twin (must FAIL)", expect_fail=True),
+    ],
+)
+
+
+F_TOKVAL = ["rustemo-compiler/src/lang/rustemo_actions.rs: int_const, bool_const, annotation, regex_term, str_const (whole functions, sliced verbatim)"]
+
+
+def tokh(name, what, bounds, tiers=Q, **kw):
+    return h("e2", "tokvals::proofs::" + name, what, bounds, F_TOKVAL, tiers=tiers, timeout=1200, mem_gb=8, cost=2, extra=NOMEM, **kw)
+
+
+TOKVAL = [
+    tokh("int_const_1", "int_const on 1 ASCII digit: no panic, value = number written", "all 1-digit strings"),
+    tokh("int_const_3", "int_const on 3 ASCII digits", "all 3-digit strings"),
+    tokh("int_const_9", "int_const on 9 ASCII digits (largest length that always fits u32)", "all 9-digit strings", tiers=T),
+    tokh("int_const_10", "int_const on 10 ASCII digits (can exceed u32::MAX)", "all 10-digit strings"),
+    tokh("bool_const_h", "bool_const", "true | false"),
+    tokh("annotation_h", "annotation: value = text after @", "@ + 1..3 identifier bytes"),
+    tokh("tokval_twin_must_fail", "vacuity twin (must FAIL)", "-", expect_fail=True),
+]
+PROPS["TOKVAL"] = dict(level="other", explanation="dev", harnesses=TOKVAL)
+
+
+PROPS.pop("TOKVAL", None)
+PROPS.pop("STEP", None)
+PROPS.pop("E1ALL", None)
+
+
+def pick(spec, names):
+    d = {x["name"].split("::")[-1]: x for x in spec["harnesses"]}
+    return [d[n] for n in names]
+
+
+def with_tiers(hh, tiers):
+    d = dict(hh)
+    d["tiers"] = tiers
+    return d
+
+
+E4Q = {x["name"].split("::")[-1]: x for x in e4_harnesses()}
+
+PROPS["C16"] = dict(
+    level="other",
+    explanation=(
+        "Bounded model checking (Kani/CBMC) of the parts of the grammar compiler that are in reach: the token-value actions of "
+        "the grammar language (int_const, bool_const, annotation; whole functions sliced verbatim) on every token text of the "
+        "stated length that the terminal accepts, and the conflict-resolution code of calculate_reductions, whose assert!/panic! "
+        "statements are shown unreachable for every cell shape (shared with C05)."
+    ),
+    residual="GrammarBuilder (String-keyed maps: missing 'AUG' unwrap on a terminals-only file, todo!() on greedy repetition operators, expect() on parenthesized groups - all observed natively, none decidable here), table construction fixpoints, generator (syn/quote), regex_term/str_const (String::replace on symbolic text does not finish), float_const (floating point)",
+    assumptions=["IntConst text is restricted to ASCII digits (the terminal regex /\\d+/ also accepts other Unicode digits, which is part of the recorded finding)"],
+    harnesses=TOKVAL[:-1] + [TOKVAL[-1]] + pick(PROPS["C05"], ["res_shift_reduce", "res_shift_reduce2", "res_accept_reduce", "res_shift", "res_accept"]),
+)
+
+PROPS["C02"] = dict(
+    level="other",
+    explanation=(
+        "Solver-decided pieces of 'every successful LR parse yields a valid derivation': (1) one step of the real LR loop body "
+        "(sliced from LRParser::parse_with_context, run inside the re-hosted real lr/parser.rs) from an arbitrary valid parser "
+        "state equals the textbook LR step - Reduce(prod,len) pops len states, takes the GOTO of the production's non-terminal "
+        "from the state below, calls the builder with exactly (prod,len); Shift pushes the target state and hands the token to "
+        "the builder; (2) the real TreeBuilder keeps the stack discipline (children = previous top prod_len nodes, in order); "
+        "(3) conflict resolution only removes candidate actions (sliced calculate_reductions); (4) for the corpus grammars the "
+        "automaton over the real tables validates every accepted run as a bottom-up derivation consuming the whole input, for "
+        "every token string up to the bound."
+    ),
+    residual="the composition over a whole parse for grammars outside the corpus; partial parsing at the loop level (the synthetic-STOP rule of next_token is decided only through the re-hosted next_token when present in the step harness)",
+    assumptions=["see C01 for the corpus/automaton assumptions", "stand-ins of the step harness: Vec -> fixed-capacity vector, Position/SourceSpan -> offsets only, symbolic ParserDefinition/Lexer/Builder recording their calls"],
+    harnesses=STEP[:3] + [STEP[3], STEP[5]]
+    + [E1[k] for k in ("tree10", "tree11", "tree21", "tree22", "tree30", "tree32", "tree33", "tree42", "tree44", "tree00", "buildtwin")]
+    + pick(PROPS["C05"], ["res_shift", "res_reduce", "res_shift_reduce"])
+    + [E4Q[n] for n in ("lr_g1_expr_q", "lr_g5_opt_list_q", "lr_g7_sugar_q", "lr_g1_expr_t", "lr_g5_opt_list_t", "lr_g7_sugar_t")],
+)
+
+PROPS["C12"] = dict(
+    level="other",
+    explanation=(
+        "Solver-decided pieces of 'syntax errors point at the first offending token': (1) for every corpus grammar and every "
+        "token string up to the bound, the automaton over the real table rejects exactly the non-sentences and does so at the "
+        "first token that cannot continue any sentence (independent Earley viable-prefix reference), and never rejects a "
+        "sentence; (2) the real error_expected builds a zero-width span at the context position (offset, line, column), not at "
+        "the previous token's span; (3) the real whitespace skipping leaves the position on the first non-layout byte with "
+        "line/column advanced by the law; (4) the line/column law of position_after on every valid UTF-8 string up to the "
+        "bound; (5) in the real loop body, a failed lookahead after a shift/reduce surfaces as Err."
+    ),
+    residual="GLR error position (make_error picks the first head of the last frontier); the non-empty expected list text; grammars outside the corpus",
+    assumptions=["see C01 for the corpus/automaton assumptions", "stub: fmt::format (message text is not a subject)"],
+    harnesses=[E1[k] for k in ("err1", "err2", "ws4", "ws6", "pos4", "pos6", "abs4", "lextwin")] + [STEP[1], STEP[5]]
+    + [E4Q[n] for n in sorted(E4Q) if n.endswith("_q")][:8] + [E4Q[n] for n in sorted(E4Q) if n.endswith("_t")][:8],
+)
+
+PROPS["C13"] = dict(
+    level="other",
+    explanation=(
+        "Solver-decided pieces of 'spans and positions locate every tree node': (1) the line/column law of the real "
+        "<str as Input>::position_after / span_from for every valid UTF-8 string up to the bound, relative and absolute (line = "
+        "1 + newlines before the offset, column = bytes from the line start) and its composition over concatenation; (2) every "
+        "token produced by the real TokenIterator has value == the very slice of the input at its span, span.start = lexing "
+        "position, span.end = position_after; (3) one step of the real LR loop body: a shifted span is [position, position "
+        "after the token]; a reduced span runs from the first child's start to the last child's end; an empty reduction gets a "
+        "zero-width span between the end of the preceding token and the start of the next; the context span of the last token "
+        "is restored after a reduction; positions are untouched by reductions."
+    ),
+    residual="GLR span threading through the reducer; ordering/non-overlap of all leaves of a whole tree as a global statement (follows from the step facts by induction, not decided as a whole)",
+    assumptions=["recognizer model: arbitrary prefix matcher", "step harness stand-ins as in C02"],
+    harnesses=[E1[k] for k in ("pos4", "pos6", "pos8", "abs4", "abs6", "bytes", "tok4", "tok6", "lextwin")] + STEP[:4] + [STEP[5]],
+)
+
+PROPS["C14"] = dict(
+    level="other",
+    explanation=(
+        "Solver-decided pieces of 'the generic tree is lossless' (whitespace mode): (1) the real StringLexer skipping: the layout "
+        "recorded is exactly the maximal whitespace prefix (Unicode White_Space) at the old position, None when empty, a stale "
+        "layout is cleared, and the position advances by it - so layout + token text tile the input; (2) the real TreeBuilder "
+        "stores context.layout_ahead() on the leaf and the first child's layout on a node; (3) in the real LR loop body the "
+        "layout found before the lookahead survives the re-lexing after a reduction; (4) the real SliceBuilder (layout parser "
+        "result) returns input[context.span()]."
+    ),
+    residual="the Layout-rule sub-parser as a whole, the round trip over a whole parse, 'inserting layout never changes the tree'",
+    assumptions=["step harness stand-ins as in C02"],
+    harnesses=[E1[k] for k in ("ws4", "ws6", "sliceb", "tree11", "tree22", "tree32", "tree30", "lextwin")] + [STEP[1], STEP[2], STEP[5]],
+)
+
+PROPS["C15"] = dict(
+    level="other",
+    explanation=(
+        "Panic-freedom (index, slice, char-boundary, arithmetic overflow as in the dev profile, unwrap/expect - all Kani default "
+        "checks kept on) of the runtime functions every parse goes through, on arbitrary valid UTF-8 up to the bound: "
+        "position_after, span_from, <str as Input>::slice as called by the parsers, whitespace skipping, TokenIterator::next, "
+        "TreeBuilder/SliceBuilder actions; and one step of the real LR loop body from an arbitrary valid state, including an "
+        "empty action cell (a custom lexer returning a token kind the state does not expect), which must be an Err. For the "
+        "corpus grammars the automaton over the real tables terminates within the computed step bound on every token string up "
+        "to the bound (unwinding assertions on)."
+    ),
+    residual="termination / panic-freedom of the complete LR and GLR loops on real text (e.g. a terminal whose regex matches the empty string can be shifted for ever - observed by reading, not decidable here); the GLR reducer",
+    assumptions=["recognizer model: arbitrary prefix matcher", "step harness stand-ins as in C02"],
+    harnesses=[E1[k] for k in ("pos4", "pos6", "slice4", "slice6", "bytes", "ws4", "ws6", "tok4", "tok6", "sliceb", "tree00", "lextwin")]
+    + [STEP[4], STEP[1], STEP[5]] + [E4Q[n] for n in ("lr_g2_nullable_q", "lr_g14_unary_chain_q", "lr_g2_nullable_t", "lr_g14_unary_chain_t")],
+)
